@@ -212,7 +212,7 @@ func c14Save(variant, sizeS, seedS, probe string) []string {
 
 	after, rerr := os.ReadFile(dest)
 	finalOK := err == nil && rerr == nil && bytes.Equal(after, expected)
-	if probe == "faildir" {
+	if probe == "faildir" || vc14.FsizeOf(probe) >= 0 {
 		// The save cannot succeed; it must say so and leave the file alone.
 		finalOK = err != nil && vc14.FileSum(dest) == oldSum
 	}
@@ -287,9 +287,21 @@ func (p *c14Parent) gen(r *rand.Rand, emit vutil.Emit) {
 				fault = "faildir"
 			case f == 1:
 				fault = "notmp"
+			case f == 2 || f == 3:
+				// Write fault: the file may not grow beyond lim bytes (EFBIG), which
+				// is always less than what the save wants to write.
+				lim := 0
+				if r.IntN(2) == 0 {
+					lim = r.IntN(size/2 + 1)
+					if lim > 20 && size < 64 {
+						lim = 20
+					}
+				}
+				fault = "fsize=" + strconv.Itoa(lim)
 			}
 			probe := vc14.Probe(mode, fault)
-			commit := vutil.B(fault != "faildir")
+			failing := fault == "faildir" || strings.HasPrefix(fault, "fsize=")
+			commit := vutil.B(!failing)
 			switch v := r.IntN(10); {
 			case v < 5:
 				emit("C14.save", "writedb", strconv.Itoa(size), seed, commit, "0", probe)
@@ -302,7 +314,7 @@ func (p *c14Parent) gen(r *rand.Rand, emit vutil.Emit) {
 				if size > 1<<20 {
 					size = 1 << 20
 				}
-				if fault == "faildir" {
+				if failing {
 					probe = mode
 				}
 				emit("C14.put", vutil.Hex("W/"+dbFilename), strconv.Itoa(size), seed)
